@@ -3,7 +3,7 @@
            (probes: sample indices in [0, ns) at which the saturation bookkeeping is reported)
            (SAMPLES_TAPER is the source's constant 1024)
    output: nbatches :: file_end :: rms_end :: time_end
-           :: enc_list worker  (per worker: status, events (8 ints each), pads (4 ints each))
+           :: enc_list worker  (per worker: status, events (9 ints each), pads (4 ints each))
            ++ enc_list batch   (closed-form write map per batch: first, last, glo, ghi, local lo)
            ++ enc_list probe   (3 ints each) *)
 From Coq Require Import ZArith List Bool.
@@ -13,7 +13,8 @@ Import ListNotations.
 Open Scope Z_scope.
 
 Definition enc_bevent (e : bevent) : list Z :=
-  [e_first e; e_last e; e_pos e; e_lo e; e_cnt e; e_rms_pos e; e_time_pos e; stage_code sat_input_stage].
+  [e_first e; e_last e; e_pos e; e_lo e; e_cnt e; e_rms_pos e; e_time_pos e; stage_code sat_input_stage;
+   threshold_code sat_max_voltage].
 Definition enc_pevent (p : pevent) : list Z := [p_first p; p_pos p; p_cnt p; p_src p].
 Definition enc_wres (r : wres) : list Z :=
   match r with
